@@ -225,7 +225,20 @@ func checkFirst(ctx *Ctx, r *Result) {
 		r.undecided("R3.1", "headers.First", "cannot summarise: "+strings.Join(x.Problems, "; "))
 		return
 	}
-	const lk = "lookup(param:hdrs, param:k)"
+	// the value looked up: v of `v, ok := hdrs[k]` or of `v := hdrs[k]`
+	// (len(v) != 0 already implies that the key is present)
+	lk := "lookup(param:hdrs, param:k)#0"
+	commaOk := true
+	for _, p := range paths {
+		for _, a := range p.Atoms {
+			if a.T.MentionsKey("lookup(param:hdrs, param:k)") && !a.T.MentionsKey(lk) && !a.T.MentionsKey("lookup(param:hdrs, param:k)#1") {
+				lk, commaOk = "lookup(param:hdrs, param:k)", false
+			}
+		}
+	}
+	present := func(p *Path) bool {
+		return !commaOk || p.Has("lookup(param:hdrs, param:k)#1", true)
+	}
 	good := len(paths) > 0
 	detail := ""
 	foundPaths := 0
@@ -237,23 +250,24 @@ func checkFirst(ctx *Ctx, r *Result) {
 		if len(p.Effects) > 0 {
 			good, detail = false, "First has side effects: "+p.Effects[0].String()
 		}
+		nonEmpty := p.Val("bin:==(len:builtin.len(" + lk + "), 0)")
 		switch p.Rets[2].Key() {
 		case "true":
 			foundPaths++
-			if p.Rets[0].Key() != "*iaddr("+lk+"#0, 0)" {
+			if p.Rets[0].Key() != "*iaddr("+lk+", 0)" {
 				good, detail = false, "first result is not v[0]: "+p.Rets[0].Key()
 			}
-			if p.Rets[1].Key() != "slice("+lk+"#0, _, 1, _)" {
+			if p.Rets[1].Key() != "slice("+lk+", _, 1, _)" {
 				good, detail = false, "second result is not v[:1]: "+p.Rets[1].Key()
 			}
-			if !p.Has(lk+"#1", true) || !p.Has("bin:==(len:builtin.len("+lk+"#0), 0)", false) {
-				good, detail = false, "found=true without `present ∧ len(v) != 0`: "+p.AtomString()
+			if nonEmpty != -1 {
+				good, detail = false, "found=true without `len(v) != 0` for the value looked up: "+p.AtomString()
 			}
 		case "false":
 			if p.Rets[1].Key() != "nil" {
 				good, detail = false, "not-found path returns a non-nil slice"
 			}
-			if p.Has(lk+"#1", true) && p.Has("bin:==(len:builtin.len("+lk+"#0), 0)", false) {
+			if present(p) && nonEmpty == -1 {
 				good, detail = false, "found=false although the key is present with a value"
 			}
 		default:
